@@ -33,6 +33,11 @@ pub struct CallCost {
     pub has_ipfix: bool,
     pub tmpl_wire: usize,
     pub zero_len_templates: bool,
+    /// cells decoded from fields of declared length 0 (records x zero-length fields), from the
+    /// result and the governing cached templates: the allowance of the listed amplification finding
+    pub zero_cells: usize,
+    /// structural items in the result: packets, sets, template records, field specifiers, records, cells
+    pub units: usize,
 }
 
 fn cache_has_zero_len(p: &NetflowParser) -> bool {
@@ -85,6 +90,42 @@ fn templates_used(p: &NetflowParser, res: &[NetflowPacket]) -> usize {
     t
 }
 
+pub fn result_units(res: &[NetflowPacket]) -> usize {
+    use netflow_parser::variable_versions::{ipfix as ix, v9};
+    let mut u = 0usize;
+    for e in res {
+        u += 1;
+        match e {
+            NetflowPacket::V5(v) => u += v.flowsets.len(),
+            NetflowPacket::V7(v) => u += v.flowsets.len(),
+            NetflowPacket::V9(v) => {
+                for f in &v.flowsets {
+                    u += 1;
+                    match &f.body {
+                        v9::FlowSetBody::Template(t) => u += t.templates.iter().map(|x| 1 + x.fields.len()).sum::<usize>(),
+                        v9::FlowSetBody::OptionsTemplate(t) => u += t.templates.iter().map(|x| 1 + x.scope_fields.len() + x.option_fields.len()).sum::<usize>(),
+                        v9::FlowSetBody::Data(d) => u += d.fields.iter().map(|r| 1 + r.len()).sum::<usize>(),
+                        v9::FlowSetBody::OptionsData(d) => u += 1 + d.scope_fields.len() + d.options_fields.len(),
+                    }
+                }
+            }
+            NetflowPacket::IPFix(v) => {
+                for f in &v.flowsets {
+                    u += 1;
+                    match &f.body {
+                        ix::FlowSetBody::Template(t) => u += 1 + t.fields.len(),
+                        ix::FlowSetBody::OptionsTemplate(t) => u += 1 + t.fields.len(),
+                        ix::FlowSetBody::Data(d) => u += d.fields.iter().map(|r| r.len()).sum::<usize>(),
+                        ix::FlowSetBody::OptionsData(d) => u += d.fields.iter().map(|r| r.len()).sum::<usize>(),
+                    }
+                }
+            }
+            NetflowPacket::Error(_) => {}
+        }
+    }
+    u
+}
+
 /// Measure one parse_bytes call.
 pub fn measure(sut: &mut Sut, pi: usize, buf: &[u8]) -> CallCost {
     let scope = alloc::begin();
@@ -98,13 +139,46 @@ pub fn measure(sut: &mut Sut, pi: usize, buf: &[u8]) -> CallCost {
         Err(_) => (0, res.iter().filter(|e| !e.is_error()).count()),
     };
     let has_ipfix = res.iter().any(|e| e.is_ipfix());
+    let units = result_units(&res);
+    let mut zero_cells = 0usize;
+    for e in &res {
+        match e {
+            NetflowPacket::V9(v) => {
+                for f in &v.flowsets {
+                    if let netflow_parser::variable_versions::v9::FlowSetBody::Data(d) = &f.body {
+                        if let Some(t) = sut.parsers[pi].v9_parser.templates.get(&f.header.flowset_id) {
+                            let z = t.fields.iter().filter(|x| x.field_length == 0).count();
+                            zero_cells += z * d.fields.len();
+                        }
+                    }
+                }
+            }
+            NetflowPacket::IPFix(v) => {
+                for f in &v.flowsets {
+                    use netflow_parser::variable_versions::ipfix::FlowSetBody as B;
+                    let (cells, tf) = match &f.body {
+                        B::Data(d) => (d.fields.len(), sut.parsers[pi].ipfix_parser.templates.get(&f.header.header_id).map(|t| &t.fields)),
+                        B::OptionsData(d) => (d.fields.len(), sut.parsers[pi].ipfix_parser.options_templates.get(&f.header.header_id).map(|t| &t.fields)),
+                        _ => (0, None),
+                    };
+                    if let Some(tf) = tf {
+                        let z = tf.iter().filter(|x| x.field_length == 0).count();
+                        if !tf.is_empty() {
+                            zero_cells += z * (cells / tf.len() + 1);
+                        }
+                    }
+                }
+            }
+            _ => {}
+        }
+    }
     let live_before_drop = alloc::live();
     drop(res);
     let live_after_drop = alloc::live();
     let result_bytes = live_before_drop.saturating_sub(live_after_drop);
     let cache_growth = m.live_delta - result_bytes as isize;
     let zero = cache_has_zero_len(&sut.parsers[pi]);
-    CallCost { n: buf.len(), m, result_bytes, cache_growth, tails, npackets, has_ipfix, tmpl_wire, zero_len_templates: zero }
+    CallCost { n: buf.len(), m, result_bytes, cache_growth, tails, npackets, has_ipfix, tmpl_wire, zero_len_templates: zero, zero_cells, units }
 }
 
 pub enum CostVerdict {
@@ -119,13 +193,37 @@ pub fn judge(c: &CallCost, stats: &mut CostStats) -> Result<CostVerdict, Div> {
     let r = c.result_bytes as f64;
     let a = c.m.requested as f64;
     let s = c.m.max_single as f64;
+    stats.max("result_bytes_minus_16n_per_unit", (r - 16.0 * n).max(0.0) / (c.units as f64 + 1.0));
     // 2. single-request bound: applies always
-    let s_bound = S_FLOOR.max(24.0 * n).max(4.0 * r);
+    // a vector of 24-byte maps, one per decoded one-byte cell, doubled once: 48 bytes per input
+    // byte in one request even when the set is rejected at its end and the result discarded
+    let s_bound = S_FLOOR.max(64.0 * n).max(4.0 * r);
     stats.max("single_request_over_bound", s / s_bound);
     if s > s_bound {
         return Err(div("cost/single-request", "exceeds", format!("one allocation request of {} bytes for a {}-byte buffer returning {} bytes of result (bound {})", c.m.max_single, c.n, c.result_bytes, s_bound as u64)));
     }
+    // 3'. structural output bound, applies always (also under zero-length templates, whose cells
+    // are counted as units): every structural item of the result (packet, set, template record,
+    // field specifier, record, cell) may cost a bounded overhead, payload bytes are bounded by the
+    // input. Worst legitimate overhead observed: ~670 bytes per item (a one-entry B-tree map).
+    let ru_bound = R0 + 2048.0 * c.units as f64 + 16.0 * n;
+    if r > ru_bound {
+        return Err(div("cost/result-size", "exceeds-structure", format!("result of {} bytes holds only {} structural items for a {}-byte buffer: bound {} (space reserved or retained beyond what was decoded)", c.result_bytes, c.units, c.n, ru_bound as u64)));
+    }
     if c.zero_len_templates {
+        // listed amplification finding: fields of declared length 0 are materialised per record.
+        // The allowance is exactly that model - records x zero-length fields x per-cell cost - so
+        // anything else that grows (a reservation, a copy) is still caught.
+        let z = c.zero_cells as f64;
+        let r1 = if c.has_ipfix { R1_IPFIX } else { R1_V9 };
+        let r_bound = R0 + r1 * (n + c.tmpl_wire as f64) + 2048.0 * z;
+        if r > r_bound {
+            return Err(div("cost/result-size", "exceeds-zero-length-model", format!("result of {} bytes for {} received bytes (+{} template bytes) with {} zero-length cells: bound {}", c.result_bytes, c.n, c.tmpl_wire, c.zero_cells, r_bound as u64)));
+        }
+        let a_bound = A0 + A0_PER_PACKET * (1.0 + c.npackets as f64) + A1 * n + A2 * r + 8192.0 * z;
+        if a > a_bound {
+            return Err(div("cost/requested", "exceeds-zero-length-model", format!("{} bytes requested for a {}-byte buffer returning {} bytes with {} zero-length cells; bound {}", c.m.requested, c.n, c.result_bytes, c.zero_cells, a_bound as u64)));
+        }
         return Ok(CostVerdict::Tainted);
     }
     // 3. output bound
@@ -230,6 +328,44 @@ pub fn family(name: &str, k: usize) -> Vec<Vec<u8>> {
                 d.extend(vec![0u8; 20]);
             }
             vec![d]
+        }
+        "chained-v7-empty" => {
+            let mut d = vec![];
+            for _ in 0..k {
+                p16(&mut d, 7);
+                p16(&mut d, 0);
+                d.extend(vec![0u8; 20]);
+            }
+            vec![d]
+        }
+        "chained-v5-one-record" => {
+            let mut d = vec![];
+            for _ in 0..k {
+                p16(&mut d, 5);
+                p16(&mut d, 1);
+                d.extend(vec![3u8; 20 + 48]);
+            }
+            vec![d]
+        }
+        "chained-v7-one-record" => {
+            let mut d = vec![];
+            for _ in 0..k {
+                p16(&mut d, 7);
+                p16(&mut d, 1);
+                d.extend(vec![3u8; 20 + 52]);
+            }
+            vec![d]
+        }
+        "chained-v9-with-data" => {
+            let t = V9Pkt { count: 1, sys_up_time: 0, unix_secs: 0, seq: 0, source_id: 0, flowsets: vec![V9FlowSet::Template { templates: vec![V9Tmpl { id: 256, fields: vec![(1, 4)] }], padding: vec![] }] };
+            let mut d = vec![];
+            for _ in 0..k {
+                d.extend(v9hdr(1));
+                p16(&mut d, 256);
+                p16(&mut d, 8);
+                p32(&mut d, 7);
+            }
+            vec![t.wire(), d]
         }
         "chained-v9-empty" => {
             let mut d = vec![];
@@ -384,6 +520,10 @@ pub fn family(name: &str, k: usize) -> Vec<Vec<u8>> {
 pub const FAMILIES: &[(&str, usize)] = &[
     ("chained-v5-empty", 1024),
     ("chained-v9-empty", 1024),
+    ("chained-v7-empty", 1024),
+    ("chained-v5-one-record", 512),
+    ("chained-v7-one-record", 512),
+    ("chained-v9-with-data", 1024),
     ("chained-ipfix-empty", 2048),
     ("v5-records", 512),
     ("v7-records", 512),
@@ -519,6 +659,80 @@ pub fn run(w: &mut W) {
         v.push(("ipfix-template-field-count-65535", d));
         v
     };
+    // ---- pre-sizing by an estimate instead of by what is parsed: one long record under a
+    //      template with many zero-length fields (the result is tiny, so any reservation that
+    //      scales with set length x field count stands out in the single-request bound)
+    let mut two_step: Vec<(&str, Vec<Vec<u8>>)> = vec![];
+    {
+        let nz = 60usize;
+        let mut t = vec![];
+        p16(&mut t, 10);
+        p16(&mut t, (16 + 4 + 4 + 4 * (nz + 1)) as u16);
+        t.extend(vec![0u8; 12]);
+        p16(&mut t, 2);
+        p16(&mut t, (4 + 4 + 4 * (nz + 1)) as u16);
+        p16(&mut t, 256);
+        p16(&mut t, (nz + 1) as u16);
+        for _ in 0..nz {
+            p16(&mut t, 82);
+            p16(&mut t, 0);
+        }
+        p16(&mut t, 96);
+        p16(&mut t, 65535);
+        let l = 20000usize;
+        let mut d = vec![];
+        p16(&mut d, 10);
+        p16(&mut d, (16 + 4 + 3 + l) as u16);
+        d.extend(vec![0u8; 12]);
+        p16(&mut d, 256);
+        p16(&mut d, (4 + 3 + l) as u16);
+        d.push(255);
+        p16(&mut d, l as u16);
+        d.extend(vec![b'x'; l]);
+        two_step.push(("ipfix-60-zero-length-fields-one-20000-byte-record", vec![t, d]));
+        // V9: 60 zero-length fields and one 4-byte field, 2000 records
+        let mut t = vec![];
+        p16(&mut t, 9);
+        p16(&mut t, 1);
+        t.extend(vec![0u8; 16]);
+        p16(&mut t, 0);
+        p16(&mut t, (8 + 4 * (nz + 1)) as u16);
+        p16(&mut t, 256);
+        p16(&mut t, (nz + 1) as u16);
+        for _ in 0..nz {
+            p16(&mut t, 94);
+            p16(&mut t, 0);
+        }
+        p16(&mut t, 94);
+        p16(&mut t, 8000);
+        let mut d = vec![];
+        p16(&mut d, 9);
+        p16(&mut d, 1);
+        d.extend(vec![0u8; 16]);
+        p16(&mut d, 256);
+        p16(&mut d, 8004);
+        d.extend(vec![b'y'; 8000]);
+        two_step.push(("v9-60-zero-length-fields-one-8000-byte-record", vec![t, d]));
+    }
+    for (name, bufs) in &two_step {
+        if w.oneoff(j) {
+            let _ = w.begin_case(crate::worker::ONEOFF + j, name);
+            let mut sut = Sut::new(1);
+            let mut last = None;
+            for b in bufs {
+                last = Some(measure(&mut sut, 0, b));
+            }
+            let c = last.unwrap();
+            w.rep.count("announce_cases", 1);
+            w.rep.count("calls_measured", 2);
+            w.rep.max(&format!("announce.max_single_request.{}", name), c.m.max_single as f64);
+            w.rep.shape(&format!("announce {}", name));
+            if let Err(d) = judge(&c, &mut stats) {
+                w.rep.violation(crate::ctx::sig("C15", &d), &d, sut.replay_json());
+            }
+        }
+        j += 1;
+    }
     for (name, buf) in &announce {
         if w.oneoff(j) {
             let _ = w.begin_case(crate::worker::ONEOFF + j, name);
